@@ -71,9 +71,10 @@ def run(ctx):
         try:
             h = MD6(d, key, L); h.rounds = 6
         except Exception: continue
-        for n, bo in ((700, 0), (3, 0), (1300, 5), (600, 0), (2100, 0)):
+        for n, bo, rr in ((700, 0, 6), (3, 0, 6), (1300, 5, 9), (600, 0, 6), (2100, 0, 7), (50, 0, 6)):
+            h.rounds = rr                                                          # the round count re-assigned between calls, up and down
             M = rb(n); bitlen = None if not bo else 8 * n - bo
-            e = dict(op='md6', d=d, key=B(key), L=L, r=6, m=B(M), bitlen=-1 if bitlen is None else bitlen, raised='', obs=[])
+            e = dict(op='md6', d=d, key=B(key), L=L, r=rr, m=B(M), bitlen=-1 if bitlen is None else bitlen, raised='', obs=[])
             try:
                 out = h(M, bitlen) if bitlen is not None else h(M); e['obs'] = B(out)
             except Exception as ex: e['raised'] = type(ex).__name__
